@@ -129,6 +129,10 @@ func genC01(t *rapid.T) c01Case {
 		switch op.Kind {
 		case "create":
 			op.How = pick(t, "how", uint32(nfsx.Unchecked), uint32(nfsx.Unchecked), uint32(nfsx.Guarded))
+			if rapid.IntRange(0, 2).Draw(t, "createsize") == 0 {
+				// CREATE with an explicit size in sattr3 (Len = size + 1; 0 = no size)
+				op.Len = 1 + pick(t, "csize", 0, 1, 3, c.Transfer, 5000)
+			}
 		case "write", "read", "setsize":
 			op.OffSel = pick(t, "offsel", "abs", "eof", "eof", "inside", "inside", "small", "small", "huge")
 			switch op.OffSel {
@@ -262,13 +266,38 @@ func runC01(tb stat.TB, c c01Case) {
 			switch op.Kind {
 			case "create":
 				existed := m.exists
-				res := s.nfs(nfsx.ProcCreate, nfsx.ArgsCreate(root, name, op.How, nfsx.Sattr{}, [8]byte{}))
+				var csa nfsx.Sattr
+				if op.Len > 0 {
+					csa.Size = nfsx.U64p(uint64(op.Len - 1))
+				}
+				res := s.nfs(nfsx.ProcCreate, nfsx.ArgsCreate(root, name, op.How, csa, [8]byte{}))
+				if op.Len > 0 {
+					// an explicit size may be honoured or not; what the file is afterwards must be the old bytes cut or
+					// zero-extended to one of the two sizes, and only an UNCHECKED create that replied OK may change anything
+					if ent, ok := v.PeekLstat("/" + name); ok {
+						switch {
+						case !existed && res.Status == nfsx.OK:
+							m.exists, m.size, m.log = true, 0, nil
+							if ent.Size == int64(op.Len-1) && ent.Size != 0 {
+								m.truncate(ent.Size)
+							}
+						case existed && res.Status == nfsx.OK && op.How == nfsx.Unchecked && ent.Size == int64(op.Len-1) && ent.Size != m.size:
+							if ent.Size < m.size {
+								sawShrink = true
+								shrunk[op.File] = true
+							}
+							m.truncate(ent.Size)
+							mutations[op.File]++
+							labels["create_with_size_resizes_existing"] = true
+						}
+					}
+				} else if res.Status == nfsx.OK && !existed {
+					m.exists = true
+					m.size = 0
+					m.log = nil
+				}
 				if res.Status == nfsx.OK {
-					if !existed {
-						m.exists = true
-						m.size = 0
-						m.log = nil
-					} else {
+					if existed {
 						labels["create_on_existing"] = true
 					}
 					if res.Fh != nil {
@@ -281,7 +310,7 @@ func runC01(tb stat.TB, c c01Case) {
 						fhs[op.File] = lr.Fh
 					}
 				}
-				if existed {
+				if existed && op.Len == 0 {
 					// whatever the status, an existing file's bytes must be unchanged (no size given)
 					if ent, ok := v.PeekLstat("/" + name); ok && ent.Size != m.size {
 						if stat.Violate(tb, id, check, "create-truncates-existing", c, "%s (createmode %d) on an existing file of %d bytes replied %s and left %d bytes",
